@@ -13,8 +13,16 @@ package vgirpc
 
 //@ ghost pred admitted(r *http.Request)
 
+// cbAccepted(r): the configured authenticator callback returned a nil error for r. Its only
+// source is that callback's result, so authenticate's own postcondition is PROVED against its
+// body: a non-nil result means no callback is configured or the callback accepted the request.
+//
+//@ ghost pred cbAccepted(r *http.Request)
+//@ func "field:HttpServer.authenticateFunc" (r)
+//@   establishes result1 == nil ==> cbAccepted(r)
 //@ func (*HttpServer).authenticate
 //@   property C22
+//@   ensures [onlyaccepted] result != nil ==> old(h.authenticateFunc == nil) || cbAccepted(r)
 //@   establishes result != nil ==> admitted(r)
 
 //@ func (*HttpServer).handleUnary
